@@ -166,45 +166,45 @@ theorem tie_C04_translated_ping_sent (s : St) (fail : Option Bool) (connErr : Bo
 
 /-! ### the three-thread machine with the translated functions plugged in
 
-`transStep` is `Model.Do.step` in which the sender's flush, the cancel-watch goroutine and (in `transFinish`) the tail of
+`doTransStep` is `Model.Do.step` in which the sender's flush, the cancel-watch goroutine and (in `doTransFinish`) the tail of
 `Do` are the functions translated from client.go / query.go.  On every state reachable from `init` it coincides with the model
 step, so the C04 theorem is a theorem about the machine built from the translated code. -/
 
-def transStepSender (connErr : Bool) (s : St) : St :=
+def doTransStepSender (connErr : Bool) (s : St) : St :=
   match s.sender with
   | some (.flush fail :: rest) =>
     let r := Generated.Trans.Client.flush s fail connErr
     if r.2 then failSender r.1 else { r.1 with sender := some rest }
   | _ => stepSender cfgOn s
 
-def transStepWatch (connErr : Bool) (s : St) : St :=
+def doTransStepWatch (connErr : Bool) (s : St) : St :=
   if s.watchDone then s
   else if !s.done then s
   else
     let r := Generated.Trans.Client.watch s connErr
     { r.1 with watchDone := true, err := s.err || r.2 }
 
-def transStep (connErr : Bool) (s : St) : Tid → St
-  | .sender => transStepSender connErr s
+def doTransStep (connErr : Bool) (s : St) : Tid → St
+  | .sender => doTransStepSender connErr s
   | .receiver => stepReceiver s
-  | .watch => transStepWatch connErr s
+  | .watch => doTransStepWatch connErr s
   | .env => { s with ctxDead := true }
 
-def transFinish (connErr : Bool) (s : St) : St :=
+def doTransFinish (connErr : Bool) (s : St) : St :=
   if s.err then Generated.Trans.Client.afterWaitFailed s connErr else s
 
 /-- the Cancel packet is only ever written by the cancel-watch, which then is done -/
 def WatchInv (s : St) : Prop := s.cancelSent = true → s.watchDone = true
 
-theorem transStepSender_eq (connErr : Bool) (s : St) : transStepSender connErr s = stepSender cfgOn s := by
-  unfold transStepSender
+theorem doTransStepSender_eq (connErr : Bool) (s : St) : doTransStepSender connErr s = stepSender cfgOn s := by
+  unfold doTransStepSender
   split
   · rename_i fail rest hs
     exact (tie_C04_flush s fail rest connErr hs).symm
   · rfl
 
-theorem transStepWatch_eq (connErr : Bool) (s : St) (h : WatchInv s) : transStepWatch connErr s = stepWatch s := by
-  unfold transStepWatch
+theorem doTransStepWatch_eq (connErr : Bool) (s : St) (h : WatchInv s) : doTransStepWatch connErr s = stepWatch s := by
+  unfold doTransStepWatch
   cases hw : s.watchDone
   · cases hd : s.done
     · simp [stepWatch, hw, hd]
@@ -216,11 +216,11 @@ theorem transStepWatch_eq (connErr : Bool) (s : St) (h : WatchInv s) : transStep
       exact (tie_C10_watch s connErr hw hd hcs).symm
   · simp [stepWatch, hw]
 
-theorem transStep_eq (connErr : Bool) (s : St) (t : Tid) (h : WatchInv s) : transStep connErr s t = step cfgOn s t := by
+theorem doTransStep_eq (connErr : Bool) (s : St) (t : Tid) (h : WatchInv s) : doTransStep connErr s t = step cfgOn s t := by
   cases t with
-  | sender => exact transStepSender_eq connErr s
+  | sender => exact doTransStepSender_eq connErr s
   | receiver => rfl
-  | watch => exact transStepWatch_eq connErr s h
+  | watch => exact doTransStepWatch_eq connErr s h
   | env => rfl
 
 theorem watchInv_step (s : St) (t : Tid) (h : WatchInv s) : WatchInv (step cfgOn s t) := by
@@ -244,16 +244,16 @@ theorem watchInv_step (s : St) (t : Tid) (h : WatchInv s) : WatchInv (step cfgOn
       · split <;> simp
   | env => exact h
 
-theorem transRun_eq (connErr : Bool) (sched : List Tid) :
-    ∀ s : St, WatchInv s → sched.foldl (transStep connErr) s = run cfgOn s sched := by
+theorem doTransRun_eq (connErr : Bool) (sched : List Tid) :
+    ∀ s : St, WatchInv s → sched.foldl (doTransStep connErr) s = run cfgOn s sched := by
   induction sched with
   | nil => intro s _; rfl
   | cons t ts ih =>
     intro s h
-    simp only [List.foldl_cons, run, transStep_eq connErr s t h]
+    simp only [List.foldl_cons, run, doTransStep_eq connErr s t h]
     exact ih (step cfgOn s t) (watchInv_step s t h)
 
-theorem transFinish_eq (connErr : Bool) (s : St) : transFinish connErr s = finish cfgOn s :=
+theorem doTransFinish_eq (connErr : Bool) (s : St) : doTransFinish connErr s = finish cfgOn s :=
   (tie_C04_after_wait s connErr).symm
 
 
@@ -262,11 +262,11 @@ schedule of the three goroutines and of the caller's cancellation, and whatever 
 have returned and the query has failed, the client is closed or both directions are at a packet boundary with nothing
 queued -/
 theorem tie_C04_translated_machine (connErr : Bool) (acts : List SendAct) (pkts : List SrvPkt) (sched : List Tid)
-    (hd : (sched.foldl (transStep connErr) (init acts pkts)).allDone = true)
-    (he : (sched.foldl (transStep connErr) (init acts pkts)).err = true) :
-    (transFinish connErr (sched.foldl (transStep connErr) (init acts pkts))).closed = true ∨
-      (transFinish connErr (sched.foldl (transStep connErr) (init acts pkts))).atBoundary = true := by
+    (hd : (sched.foldl (doTransStep connErr) (init acts pkts)).allDone = true)
+    (he : (sched.foldl (doTransStep connErr) (init acts pkts)).err = true) :
+    (doTransFinish connErr (sched.foldl (doTransStep connErr) (init acts pkts))).closed = true ∨
+      (doTransFinish connErr (sched.foldl (doTransStep connErr) (init acts pkts))).atBoundary = true := by
   have h0 : WatchInv (init acts pkts) := by intro h; simp [init] at h
-  rw [transRun_eq connErr sched _ h0] at hd he ⊢
-  rw [transFinish_eq]
+  rw [doTransRun_eq connErr sched _ h0] at hd he ⊢
+  rw [doTransFinish_eq]
   exact C04_closed_or_at_boundary acts pkts sched hd he
